@@ -119,19 +119,21 @@ parsec_info_id_t parsec_info_unregister(parsec_info_t *nfo, parsec_info_id_t iid
         next = PARSEC_LIST_ITERATOR_NEXT(item);
         ie = (parsec_info_entry_t*)item;
         if( ie->iid == iid ) {
-            if(NULL != ie->destructor) {
-                parsec_list_lock(&nfo->ioa_list);
-                for(item2 = PARSEC_LIST_ITERATOR_FIRST(&nfo->ioa_list);
-                    item2 != PARSEC_LIST_ITERATOR_END(&nfo->ioa_list);
-                    item2 = PARSEC_LIST_ITERATOR_NEXT(item2)) {
-                    ioa = (parsec_info_object_array_t*)item2;
-                    if(iid < ioa->known_infos && NULL != ioa->info_objects[iid]) {
+            /* The slot of this info is released in every object array, so that
+             * the next info that receives this id starts from NULL; the stored
+             * objects are destructed when the info has a destructor. */
+            parsec_list_lock(&nfo->ioa_list);
+            for(item2 = PARSEC_LIST_ITERATOR_FIRST(&nfo->ioa_list);
+                item2 != PARSEC_LIST_ITERATOR_END(&nfo->ioa_list);
+                item2 = PARSEC_LIST_ITERATOR_NEXT(item2)) {
+                ioa = (parsec_info_object_array_t*)item2;
+                if(iid < ioa->known_infos && NULL != ioa->info_objects[iid]) {
+                    if(NULL != ie->destructor)
                         ie->destructor(ioa->info_objects[iid], ie->des_data);
-                        ioa->info_objects[iid] = NULL;
-                    }
+                    ioa->info_objects[iid] = NULL;
                 }
-                parsec_list_unlock(&nfo->ioa_list);
             }
+            parsec_list_unlock(&nfo->ioa_list);
             parsec_list_nolock_remove(&nfo->info_list, item);
             assert(NULL == found);
             found = ie;
